@@ -67,6 +67,10 @@ func (o *simpleAccessController) GetAuthorizedByRole(role string) ([]string, err
 }
 
 func (o *simpleAccessController) CanAppend(e logac.LogEntry, p identityprovider.Interface, _ accesscontroller.CanAppendAdditionalContext) error {
+	if e.GetIdentity() == nil {
+		return fmt.Errorf("entry has no identity")
+	}
+
 	for _, id := range o.allowedKeys["write"] {
 		if e.GetIdentity().ID == id || id == "*" {
 			return accesscontroller.VerifyEntryAuthor(e, p)
